@@ -646,6 +646,9 @@ class Manager:
 
         for event_handler in event_handlers:
             event.handler = event_handler
+            # a handler that exits (KeyboardInterrupt, SystemExit) returns
+            # nothing: the previous handler's result must not be seen again
+            value = None
             try:
                 value = event_handler(event, *eargs, **ekwargs) if event_handler.event else event_handler(*eargs, **ekwargs)
             except KeyboardInterrupt:
